@@ -9,10 +9,14 @@ VARIABLE hist
 
 GInit == Init /\ hist = <<>>
 Rec(a, t) == [act |-> a, args |-> t]
-GNext == \/ \E t \in Tx : Insert(t) /\ hist' = Append(hist, Rec("Insert", t))
+Max(S) == CHOOSE x \in S : \A y \in S : y <= x
+Arg(t, k, m) == [s |-> t.s, n |-> t.n, c |-> t.c, k |-> k, m |-> m]
+GNext == \/ \E s \in Senders, n \in Nonces, k \in Classes, m \in {1, 2} :
+              /\ (m = 2 => k = Max(Classes))          \* multi-message transactions: first message of the highest class
+              /\ Insert(MkTx(s, n, k, m)) /\ hist' = Append(hist, Rec("Insert", Arg(MkTx(s, n, k, m), k, m)))
          \/ \E t \in Tx : /\ (t \in pending \/ (t.c = 0 /\ ~\E u \in pending : Key(u) = Key(t)))
-                          /\ Remove(t) /\ hist' = Append(hist, Rec("Remove", t))
-         \/ Select /\ hist' = Append(hist, Rec("Select", [s |-> 0, n |-> 0, c |-> 0]))
+                          /\ Remove(t) /\ hist' = Append(hist, Rec("Remove", Arg(t, t.c, 1)))
+         \/ Select /\ hist' = Append(hist, Rec("Select", [s |-> 0, n |-> 0, c |-> 0, k |-> 0, m |-> 1]))
 
 Last == IF hist = <<>> THEN <<>> ELSE hist[Len(hist)]
 GView == <<Last, pending, weights, out, res>>
